@@ -320,6 +320,190 @@ def bystander(T, start_a, start_b, nticks_before, nticks_after):
     return None
 
 
+class _Kill(BaseException):
+    pass
+
+
+def overlap(T, start, k_stop, dur, frac, n_after):
+    """stop() arriving WHILE the frame handler of tick k_stop is still busy (for `dur` ns; the stop() call is made
+    after frac*dur of it), followed by start().  The worker runs in a real OS thread here; one baton makes exactly
+    one of {caller, workers} run at a time and the caller's side is a discrete-event scheduler over the virtual
+    clock: a worker yields in Event.wait() (wake-up = its deadline, or at once when the event is set) and inside the
+    long handler call (wake-up = end of the call); Thread.join(timeout) pumps that scheduler until the thread has
+    ended or the timeout has passed on the virtual clock.  -> None | message"""
+    import _thread
+    import threading
+    e = env()
+    world.new_fabric()
+    links = [e["udp_link"].UDPLink("127.0.0.1", 5800, "0.0.0.0", 5700)]
+    gen = e["clck_gen"].CLCKGen(links, clck_start=start, ind_period=1)
+    clock = world.clock
+    main_gate = world.real_allocate_lock()
+    main_gate.acquire()
+    S = {"workers": [], "cur": None, "kill": False, "epoch": 0, "calls": [], "long_done": False, "exc": None, "steps": 0}
+
+    def pump(until=None, deadline=None):
+        while True:
+            if until is not None and until.finished:
+                return
+            live = [w for w in S["workers"] if not w.finished]
+            if not live:
+                if deadline is not None:
+                    clock.ns = max(clock.ns, deadline)
+                return
+
+            def eff(w):
+                if w.waiting_on is not None and w.waiting_on.flag:
+                    return clock.ns
+                return max(w.wake, clock.ns)
+            w = min(live, key=lambda x: (eff(x), x.epoch))
+            t = eff(w)
+            if deadline is not None and t > deadline:
+                clock.ns = deadline
+                return
+            S["steps"] += 1
+            if S["steps"] > 200000:
+                raise RuntimeError("no progress: a worker neither ends nor lets the virtual clock pass")
+            clock.ns = t
+            S["cur"] = w
+            w.gate.release()
+            main_gate.acquire()
+            S["cur"] = None
+
+    class W(world.FakeThread):
+        def start(self):
+            world.FakeThread.start(self)
+            self.gate = world.real_allocate_lock()
+            self.gate.acquire()
+            self.wake = clock.ns
+            self.waiting_on = None
+            self.finished = False
+            self.epoch = S["epoch"]
+            S["workers"].append(self)
+            _thread.start_new_thread(self._boot, ())
+
+        def _boot(self):
+            self.gate.acquire()
+            # logging asks threading.current_thread(); a thread it does not know would be wrapped in a _DummyThread,
+            # whose constructor goes through the (replaced) threading.Thread - register a known object instead
+            me = _thread.get_ident()
+            threading._active[me] = threading.main_thread()
+            try:
+                if not S["kill"]:
+                    self.target(*self.args, **self.kwargs)
+            except _Kill:
+                pass
+            except BaseException as ex:      # noqa
+                S["exc"] = "%s: %s" % (type(ex).__name__, ex)
+            finally:
+                threading._active.pop(me, None)
+                self.finished = True
+                self.alive = False
+                main_gate.release()
+
+        def yield_(self, wake, ev=None):
+            self.wake = wake
+            self.waiting_on = ev
+            main_gate.release()
+            self.gate.acquire()
+            self.waiting_on = None
+            if S["kill"]:
+                raise _Kill()
+
+        def join(self, timeout=None):
+            deadline = None if timeout is None else clock.ns + int(round(timeout * 1e9))
+            pump(until=self, deadline=deadline)
+            self.joined = True
+
+        def is_alive(self):
+            return self.started and not self.finished
+
+    def hook(event, timeout):
+        w = S["cur"]
+        w.yield_(clock.ns + int(round((timeout or 0) * 1e9)), event)
+        return event.flag
+
+    def handler(fn):
+        w = S["cur"]
+        S["calls"].append((fn, clock.ns, w.epoch))
+        if w.epoch == 0 and not S["long_done"] and sum(1 for c in S["calls"] if c[2] == 0) == k_stop + 1:
+            S["long_done"] = True
+            w.yield_(clock.ns + dur)
+
+    gen.clck_handler = handler
+    world.FakeEvent.wait_hook = hook
+    saved_thread = threading.Thread
+    threading.Thread = W
+    msg = None
+    try:
+        t0 = clock.ns
+        gen.start()
+        pump(deadline=t0 + (k_stop + 1) * T)
+        before = list(S["calls"])
+        clock.ns += int(dur * frac)
+        t_call = clock.ns
+        gen.stop()
+        t_ret = clock.ns
+        running_after_stop = gen.running
+        n_at_ret = len(S["calls"])
+        S["epoch"] = 1
+        ts = clock.ns
+        gen.start()
+        # observe until n_after ticks after the restart AND until 3 ticks after the end of the overlapped handler call
+        # (a worker that stop() did not wait for wakes up there)
+        t_end = t0 + (k_stop + 1) * T + dur
+        t_obs = max(ts + n_after * T, t_end + 3 * T) + T // 2
+        n_obs = (t_obs - ts) // T
+        pump(deadline=t_obs)
+        after = S["calls"][n_at_ret:]
+        gen.stop()
+        n_final = len(S["calls"])
+        pump(deadline=clock.ns + 3 * T)
+        late = S["calls"][n_final:]
+        want_before = [((start + i) % HYPER, t0 + (i + 1) * T, 0) for i in range(k_stop + 1)]
+        want_after = [((start + i) % HYPER, ts + (i + 1) * T) for i in range(n_obs)]
+        where = ("stop() called %.3f ms into a handler call of %.3f ms (tick %d), then start()"
+                 % (int(dur * frac) / 1e6, dur / 1e6, k_stop))
+        if S["exc"]:
+            msg = "%s: worker died: %s" % (where, S["exc"])
+        elif before != want_before:
+            msg = "%s: before the stop the handler saw %r, expected %r" % (where, before, want_before)
+        elif running_after_stop:
+            msg = "%s: generator still running after stop() returned" % where
+        elif [(c[0], c[1]) for c in after] != want_after:
+            bad = next((i for i, (c, w) in enumerate(zip(after, want_after)) if (c[0], c[1]) != w), min(len(after), len(want_after)))
+            after, want_after = after[max(0, bad - 1):bad + 3], want_after[max(0, bad - 1):bad + 3]
+            where += " [first difference at call #%d after the restart]" % bad
+            msg = ("%s: after the restart at t=%.3f ms the handler must be called once per frame period with the frames %r at "
+                   "%r ms; it was called with (frame, ms, worker generation) %r (the handler call that stop() overlapped "
+                   "ended at t=%.3f ms, stop() returned at t=%.3f ms)"
+                   % (where, (ts - t0) / 1e6, [w[0] for w in want_after], [round((w[1] - t0) / 1e6, 3) for w in want_after],
+                      [(c[0], round((c[1] - t0) / 1e6, 3), c[2]) for c in after], (t_end - t0) / 1e6, (t_ret - t0) / 1e6))
+        elif late:
+            msg = "%s: handler called after the final stop() had returned: %r" % (where, late)
+        elif t_ret < t_call:
+            msg = "%s: virtual clock went backwards" % where
+    except Exception as ex:            # noqa
+        msg = "stop() during a handler call of %.3f ms (tick %d): %s: %s" % (dur / 1e6, k_stop, type(ex).__name__, ex)
+    finally:
+        threading.Thread = saved_thread
+        world.FakeEvent.wait_hook = None
+        S["kill"] = True
+        for w in S["workers"]:
+            if not w.finished:
+                w.gate.release()
+                main_gate.acquire()
+    return msg
+
+
+def overlap_cases(T, tier):
+    durs = [T // 2, 3 * T, 1500 * 1000 * 1000, 12 * 1000 * 1000 * 1000]
+    if tier != "quick":
+        durs += [T + 1, 10 * T, 400 * 1000 * 1000, 70 * 1000 * 1000 * 1000]
+    ks = (0, 1, 3) if tier == "quick" else (0, 1, 2, 3, 7)
+    return [(s, k, d, f, 3) for s in (0, 2715647) for k in ks for d in durs for f in (0.0, 0.5, 0.99)]
+
+
 def run(ctx):
     T, err = calibrate()
     c = ctx.cov
@@ -344,6 +528,22 @@ def run(ctx):
     stops = [(T, 2 if ctx.quick else 3, s, p, 1, ctx.tier) for s in (0, 2715647) for p in (1, 2)]
     for r in ctx.pmap(work_stop, stops):
         ctx.merge(r)
+    # indication periods that do not divide the hyperframe: started at (and one before) the last multiple of the period
+    # below the wrap and run, undisturbed, through the wrap and two further periods
+    nwrap = 0
+    for p in (7, 13, 100, 1000):
+        last = (HYPER - 1) // p * p
+        for s in (last, last - 1):
+            n = (HYPER - s) + 2 * p + 2
+            script = [("t", 0, 0)] * n
+            cls, msg, r = check_script(script, T, s, p, 1)
+            nwrap += 1
+            c["scripts"] = c.get("scripts", 0) + 1
+            c["ticks"] = c.get("ticks", 0) + len(r.calls)
+            if cls:
+                ctx.violation("C09:wrap-period:%s" % cls, {"script": [["t", 0, 0]], "repeat": n, "T": T, "start": s, "period": p, "links": 1},
+                              msg.replace(repr(script), "%d x ('t', 0, 0)" % n))
+    c["indication_wrap_runs"] = nwrap
     nby = 0
     for sa, sb, nb, na in itertools.product((0, 2715647), (1000, 2715646), (0, 1, 3), (1, 2)):
         msg = bystander(T, sa, sb, nb, na)
@@ -351,6 +551,13 @@ def run(ctx):
         if msg:
             ctx.violation("C09:two-generators", {"bystander": [sa, sb, nb, na], "script": [], "T": T, "start": sa, "period": 1, "links": 1}, msg)
     c["two_generator_scenarios"] = nby
+    nov = 0
+    for case in overlap_cases(T, ctx.tier):
+        msg = overlap(T, *case)
+        nov += 1
+        if msg:
+            ctx.violation("C09:stop-during-handler", {"overlap": list(case), "script": [], "T": T, "start": case[0], "period": 1, "links": 1}, msg)
+    c["stop_during_handler_scenarios"] = nov
     c["script_length"] = L
     c["alphabet"] = len(A)
     c["states"] = len(c["states"]) if isinstance(c.get("states"), set) else c.get("states", 0)
@@ -381,6 +588,17 @@ def replay(ctx, case):
         return
     if abs(T2 - NOMINAL) >= 1000:
         ctx.violation("C09:period", case, "frame period is %d ns" % T2)
+    if case.get("repeat"):
+        script = script * int(case["repeat"])
+        cls, msg, r = check_script(script, T2, case["start"], case["period"], case["links"])
+        if cls:
+            ctx.violation("C09:wrap-period:%s" % cls, case, msg.replace(repr(script), "%d x ('t', 0, 0)" % len(script)))
+        return
+    if case.get("overlap"):
+        msg = overlap(T2, *case["overlap"])
+        if msg:
+            ctx.violation("C09:stop-during-handler", case, msg)
+        return
     if case.get("bystander"):
         msg = bystander(T2, *case["bystander"])
         if msg:
